@@ -6,7 +6,7 @@ import os, sys, json, re, time, hashlib
 sys.path.insert(0, os.path.dirname(os.path.abspath(__file__)))
 VERIF = os.path.dirname(os.path.dirname(os.path.abspath(__file__)))
 
-SAFETY_CLASSES = {'overflow', 'div0', 'shift', 'assert', 'unreachable', 'truncation'}
+SAFETY_CLASSES = {'overflow', 'div0', 'shift', 'assert', 'unreachable', 'truncation', 'index'}
 TERM_CLASSES = {'decreases', 'no-measure'}
 
 
